@@ -406,6 +406,13 @@ class Program:
             raise AnalysisBroken("anchor function %s not found in program %s" % (qname, self.which))
         return out
 
+    def fnby(self, name, required=True):
+        """Functions whose qualified name is `name` or ends in `::name`."""
+        out = [f for f in self.functions.values() if f.qn == name or f.qn.endswith("::" + name)]
+        if required and not out:
+            raise AnalysisBroken("anchor function %s not found in program %s" % (name, self.which))
+        return out
+
     def fn1(self, qname):
         out = self.fn(qname)
         if len(out) != 1:
